@@ -5,6 +5,7 @@ import (
 	"verifharness/mc"
 	_ "verifharness/props/c01"
 	_ "verifharness/props/c02"
+	_ "verifharness/props/c03"
 	_ "verifharness/props/c04"
 	_ "verifharness/props/c05"
 	_ "verifharness/props/c06"
